@@ -442,6 +442,11 @@ def run(ctx):
         "rev_ef0ca9d1": (4, '{"topo","fv","ufile"}' if wide else '{"topo"}', '{"uni","mix"}' if wide else '{"uni"}', False),
         "rev_e3484517": (3 if wide else 2, '{"topo","topoE"}' if wide else '{"topo"}', '{"uni"}', False),
         "rev_ea0c8869": (3, '{"topo","ugrid","fv"}' if wide else '{"topo","ugrid"}', '{"uni"}', False),
+        "rev_85394185": (4 if wide else 3, '{"topo","fv","ufile"}' if wide else '{"topo"}', '{"uni","mix"}' if wide else '{"uni"}', False),
+        "rev_755d0493": (4, '{"fv"}', '{"uni","mix"}' if wide else '{"uni"}', False),
+        "rev_6b5a0114": (3 if wide else 2, '{"topo","fv","ugrid"}' if wide else '{"topo"}', '{"mix"}', False),
+        "rev_5f78d30f": (3 if wide else 2, '{"topo","fv","ugrid"}' if wide else '{"topo"}', '{"mix"}', False),
+        "rev_e9051200": (3 if wide else 2, '{"ufile"}', '{"uni","mix"}' if wide else '{"uni"}', False),
     }
     regress = []
     broke = {}
@@ -455,7 +460,7 @@ def run(ctx):
             for c in cl_v[key][:per]:
                 regress.append(dict(c, expect=(key[0], key[1]), origin="regress:" + v))
     if thorough:
-        for v in ["only_alias", "only_helper", "only_coords", "only_scrip", "only_exofill", "only_exostart", "only_exoreader", "only_filefill"]:
+        for v in ["before_c07_repairs", "only_alias", "only_helper", "only_coords", "only_scrip", "only_exofill", "only_exostart", "only_exoreader", "only_filefill"]:
             invs = [i for i in INVS if i != "FunctionOfSource"]
             r = ctx.tlc("EncodeLazy", cfg(v, 4, 2, ALL_ROUTES, '{"uni","mix"}', '{"topoE"}', '{"uni"}', True, invs, "NoHist"),
                         what="model mutant %s must break a clause" % v, workers=4, count=False, timeout=900)
